@@ -104,14 +104,19 @@ def run_1090(bindir, script, settle=0.5):
     """returns dict(printed=[...], alive=0/1, exit=code or -1, panic=0/1)"""
     srv = FeedServer(script)
     srv.start()
-    p = subprocess.Popen([os.path.join(bindir, "1090"), "--host", "127.0.0.1", "--port", str(srv.port)],
-                         stdout=subprocess.PIPE, stderr=subprocess.PIPE)
+    # stdout goes to a file: a pipe nobody reads while the client runs would fill up (64 KB) and stall the client
+    fo = tempfile.TemporaryFile()
+    fe = tempfile.TemporaryFile()
+    p = subprocess.Popen([os.path.join(bindir, "1090"), "--host", "127.0.0.1", "--port", str(srv.port)], stdout=fo, stderr=fe)
     srv.done_sending.wait(30)
     time.sleep(settle)
     alive = p.poll() is None
     if alive:
         p.kill()
-    out, err = p.communicate(timeout=10)
+    p.wait(timeout=10)
+    fo.seek(0); fe.seek(0)
+    out, err = fo.read(), fe.read()
+    fo.close(); fe.close()
     srv.stop()
     lines = out.decode("utf-8", "replace").splitlines()
     printed = [l for l in lines if l and not l.startswith(" ")]
